@@ -168,7 +168,8 @@ ALLOWED = {
     'mkexpr': {'op': 'set by the creators of the operator kinds that read it', 'u.': 'the arm of the expression kind is filled by the creator'},
     'mkglobal': {'u.i': OTHER_ARMS, 'u.f': OTHER_ARMS},
     'mkglobal(asm)': {'u.i': OTHER_ARMS, 'u.f': OTHER_ARMS},
-    'scanfrom': {'chr': 'the look-ahead character: read by nextchar() in scanopen() before the first token of the file is scanned'},
+    'scanfrom': {'chr': 'the look-ahead character: read by nextchar() in scanopen() before the first token of the file is scanned',
+                 'peekchr': 'read only while haspeek is set, which the writer of the slot sets', 'peekloc.': 'idem'},
 }
 
 
